@@ -27,6 +27,12 @@ type Obligation struct {
 	idx       int
 }
 
+type applyMark struct {
+	from, to int
+	pc       string
+	what     string
+}
+
 type reachMark struct {
 	at  int
 	pc  string
@@ -62,6 +68,7 @@ type VC struct {
 	callees       map[string]bool
 	intMode       bool
 	ringMode      bool
+	applyMarks    []applyMark // item ranges of callee-contract applications (vacuity guard)
 	returnMarks   []reachMark // path conditions of the return instructions (vacuity guard)
 	afterEntry    bool
 	privateEntry  []string // storage references of by-value aggregate parameters
